@@ -665,12 +665,12 @@ def np_unravel_index(eng, args, kwargs):
 _prev_cast = narr.cast
 
 
-def cast(eng, x, kind):
+def cast(eng, x, kind, *more, **kw):  # narr.cast has grown optional dtype arguments: passed through
     # +-inf has no real value: it is kept as the float itself (only np.argmin above understands it; any arithmetic on
     # it raises inside the engine, i.e. a machinery error, never a wrong proof)
     if _is_inf(x) and kind == "real":
         return x
-    return _prev_cast(eng, x, kind)
+    return _prev_cast(eng, x, kind, *more, **kw)
 
 
 # ----------------------------------------------- obj.__getattribute__(name)
